@@ -33,6 +33,7 @@ def main():
     ap.add_argument('--tier', default='quick')
     ap.add_argument('--seed', default='1')
     ap.add_argument('--skip-tests', action='store_true')
+    ap.add_argument('--keep-as', default='')
     a = ap.parse_args()
     wt = tempfile.mkdtemp(prefix='seedwt-', dir='/tmp')
     os.rmdir(wt)
@@ -63,9 +64,21 @@ def main():
         if a.all:
             props = [c['property_id'] for c in json.load(open(os.path.join(HERE, 'MANIFEST.json')))['checks']]
         out['checks'] = {}
+        rdir = wt + '-replays'
         for p in props:
             rc, o, e = sh([PY, '-B', 'run_check.py', p, '--tier', a.tier], cwd=HERE,
-                          env=dict(os.environ, VERIF_REPO_DIR=wt, VERIF_SEED=a.seed))
+                          env=dict(os.environ, VERIF_REPO_DIR=wt, VERIF_SEED=a.seed, VERIF_REPLAY_DIR=rdir))
+            if rc == 1 and a.keep_as:
+                import glob
+                os.makedirs(os.path.join(HERE, 'regress', p), exist_ok=True)
+                for i, path in enumerate(sorted(glob.glob(os.path.join(rdir, f'{p}-*.json')), key=os.path.getsize)[:2]):
+                    d = json.load(open(path))
+                    if len(json.dumps(d['case'])) > 60000:
+                        continue
+                    json.dump({'property': p, 'origin': f'killed seeded change {a.keep_as}',
+                               'signature_when_found': d['signature'], 'case': d['case'],
+                               'detail_when_found': d['detail']},
+                              open(os.path.join(HERE, 'regress', p, f'seeded_{a.keep_as}_{i}.json'), 'w'), indent=1)
             sigs = [l.strip()[len('signature: '):] for l in o.splitlines() if l.strip().startswith('signature:')]
             out['checks'][p] = {'rc': rc, 'signatures': sigs[:6],
                                 'tail': o.strip().splitlines()[-1] if o.strip() else e[-300:]}
@@ -73,6 +86,7 @@ def main():
     finally:
         sh(['git', '-C', '/repo', 'worktree', 'remove', '--force', wt])
         shutil.rmtree(wt, ignore_errors=True)
+        shutil.rmtree(wt + '-replays', ignore_errors=True)
         sh(['git', '-C', '/repo', 'worktree', 'prune'])
     return 0
 
